@@ -3,6 +3,7 @@ package tk
 import (
 	"github.com/bradenaw/juniper/container/tree"
 	"github.com/bradenaw/juniper/iterator"
+	"math"
 )
 
 // tokKeySUT presents a tree.Map[*Tok, V] as a collection keyed by int: position j is stored as
@@ -13,7 +14,7 @@ type tokKeySUT[V any] struct{ m tree.Map[*Tok, V] }
 
 func tokOf(j int) *Tok { return &Tok{ID: j} }
 
-const nilKeyPos = -1 << 60
+const nilKeyPos = math.MinInt / 4 // far below every generated id, on 32-bit targets too
 
 func posOf(t *Tok) int {
 	if t == nil {
